@@ -90,6 +90,12 @@ func (e *c13Env) release() error {
 
 // forgeLTX builds a well-formed next transaction file for P's current position.
 func forgeLTX(p *cluster.CNode, img *ref.Image, nodeID uint64) []byte {
+	return forgeLTXPost(p, img, nodeID, 0)
+}
+
+// forgeLTXPost: as forgeLTX; xor != 0 falsifies the post-apply checksum the
+// file announces (the file itself stays well-formed).
+func forgeLTXPost(p *cluster.CNode, img *ref.Image, nodeID uint64, xor uint64) []byte {
 	pos := p.Store.DB("db").Pos()
 	var buf bytes.Buffer
 	enc := ltx.NewEncoder(&buf)
@@ -103,7 +109,7 @@ func forgeLTX(p *cluster.CNode, img *ref.Image, nodeID uint64) []byte {
 	_ = enc.EncodePage(ltx.PageHeader{Pgno: 2}, np)
 	ni := img.Clone()
 	ni.Set(2, np)
-	enc.SetPostApplyChecksum(ltx.Checksum(ni.Checksum()))
+	enc.SetPostApplyChecksum(ltx.ChecksumFlag | ltx.Checksum(ni.Checksum()^xor))
 	_ = enc.Close()
 	return buf.Bytes()
 }
